@@ -19,6 +19,7 @@ HERE = os.path.dirname(os.path.abspath(__file__))
 VERIF = os.path.dirname(HERE)
 
 SERVER_IP = "10.9.0.1"
+SERVER_IP6 = "fd00::1"
 STEP_TIMEOUT = float(os.environ.get("VERIF_STEP_TIMEOUT", "20"))
 
 
@@ -235,7 +236,10 @@ class World:
                 if s and s.port is None:
                     # unbound socket: implicit bind on first send
                     s.ip, s.port = inst.ip, self._ephemeral()
-                src = (inst.ip if (s is None or s.ip in (None, "0.0.0.0")) else s.ip, s.port if s else 0)
+                if s is not None and s.ip is not None and ":" in s.ip:
+                    src = (SERVER_IP6 if s.ip == "::" else s.ip, s.port)
+                else:
+                    src = (inst.ip if (s is None or s.ip in (None, "0.0.0.0")) else s.ip, s.port if s else 0)
                 self.send(src, (e[3], int(e[4])), data, inst.name)
             elif k == "tunw":
                 self.ev(ev="TunWrite", inst=inst.name, data=unhx(e[3]))
@@ -323,6 +327,12 @@ class World:
         ip, port = dst
         for s in self.socks.values():
             if s.kind != "udp" or s.closed or s.port != port:
+                continue
+            if ":" in ip:
+                if s.ip is not None and ":" in s.ip and (s.ip == ip or (s.ip == "::" and s.inst.kind == "S" and ip == SERVER_IP6)):
+                    return s
+                continue
+            if s.ip is not None and ":" in s.ip:
                 continue
             if s.ip == ip or (s.ip in ("0.0.0.0", None) and s.inst.ip == ip) or \
                (ip == "127.0.0.1" and s.inst.kind == "S"):
